@@ -180,3 +180,13 @@ Section DriverProofs.
     - cbn [snd fst d_step]. split; [lra|exact Hmc'].
   Qed.
 End DriverProofs.
+
+(** the option hypotheses are satisfiable: the defaults of FieldDriverOptions *)
+Example driver_opts_satisfiable :
+  exists o : dopts R, 0 < minimum_step o /\ 0 < delta_chord o /\ 0 < epsilon_step o
+                      /\ 0 < max_stepping_decrease o < 1 /\ (0 < max_nsteps o)%nat.
+Proof.
+  exists (DOpts (1/1000000) (25/1000) (1/100000) (1/100000) (1/1000) (-2/10) (-25/100) (9/10) 5 (1/10) 100).
+  cbn [minimum_step delta_chord epsilon_step max_stepping_decrease max_nsteps].
+  repeat split; try lra; lia.
+Qed.
